@@ -90,14 +90,16 @@ def run_seed(sid, tests=False, tier="quick", jobs=8):
 
 def table():
     rows = []
-    for sid in sorted(os.listdir(os.path.join(ROOT, "seeded"))):
+    dp = os.path.join(ROOT, "seeded", "descriptions.json")
+    desc = json.load(open(dp)) if os.path.exists(dp) else {}
+    for sid in sorted(x for x in os.listdir(os.path.join(ROOT, "seeded")) if os.path.isdir(os.path.join(ROOT, "seeded", x))):
         p = os.path.join(ROOT, "seeded", sid, "meta.json")
         if not os.path.exists(p):
             continue
         m = json.load(open(p))
         lr = m.get("last_run", {})
         ob = "; ".join(sorted({(x.get("obligation") or "?").split("/", 1)[-1] + ("" if x.get("confirmed", True) else " (no input)") for x in lr.get("failed_obligations", [])}))
-        rows.append("| %s | %s | %s | %s | %s |" % (sid, m.get("property"), (m.get("what") or "").replace("|", "/"),
+        rows.append("| %s | %s | %s | %s | %s |" % (sid, m.get("property"), ((desc.get(sid) or {}).get("what") or m.get("what") or "").replace("|", "/"),
                                                  "caught" if lr.get("caught") else "**missed** (exit %s)" % lr.get("check_exit"), ob[:700] or "–"))
     print("| seed | property | change | verdict of `./check` | failed obligations |\n|---|---|---|---|---|")
     print("\n".join(rows))
@@ -118,7 +120,7 @@ if __name__ == "__main__":
         a, b = d.index("<!-- SEEDTABLE:BEGIN -->") + len("<!-- SEEDTABLE:BEGIN -->"), d.index("<!-- SEEDTABLE:END -->")
         open(dp, "w").write(d[:a] + "\n" + buf.getvalue() + d[b:])
         sys.exit(0)
-    seeds = args or sorted(os.listdir(os.path.join(ROOT, "seeded")))
+    seeds = args or sorted(x for x in os.listdir(os.path.join(ROOT, "seeded")) if os.path.isdir(os.path.join(ROOT, "seeded", x)))
     for s in seeds:
         o = run_seed(s, tests="--tests" in sys.argv, tier="thorough" if "--thorough" in sys.argv else "quick")
         print(json.dumps({k: o.get(k) for k in ("seed", "property", "patch_applies", "demo_unpatched_exit", "demo_patched_exit", "tests_pass", "check_exit", "violation_lines", "check_s")}))
